@@ -234,7 +234,8 @@ def explore_adaptive(harnesses, levels, budget, nproc=None, chunk=400, hard_cap=
     the next level is predicted (from the growth between the last two levels) to need at most `budget` executions.
 
     Work is ordered by level (all harnesses at level n before any at level n+1); once `global_budget` executions
-    have been run in total no further level is started.  harnesses: list of (spec, label[, maxlevel]); levels:
+    have been run in total no further level is started, and once twice that many have been run the levels still in progress
+    are abandoned as well (reported as such, never as completed).  harnesses: list of (spec, label[, maxlevel]); levels:
     list of {"K":..,"T":..}.  The deepest level completed for every harness is recorded in
     notes['completed_bounds'] (label -> "K=..,T=.. (n executions)")."""
     import heapq
@@ -281,7 +282,8 @@ def explore_adaptive(harnesses, levels, budget, nproc=None, chunk=400, hard_cap=
         if label in cut:
             leftover = []
         if leftover or key in partial:
-            if counts[key] >= cap and li > 0:
+            over = global_budget is not None and ran[0] >= 2 * global_budget
+            if counts[key] >= cap or (over and li > 0):
                 # the level turned out larger than predicted: it is abandoned and NOT reported as completed
                 partial[key] = counts[key]
             elif leftover:
